@@ -1454,3 +1454,31 @@ Proof.
   - unfold thr_gap. vm_compute. repeat split; congruence.
   - vm_compute. split; congruence.
 Qed.
+
+(* ---- configured grids *)
+(* an option set on the grid itself wins over globals and defaults (also when it was inherited from the base grid) *)
+Lemma configured_grid_own_options g0 sf shr ts sf_glob shr_glob ts_glob :
+  let g := configured_grid g0 (Some sf) sf_glob (Some shr) shr_glob (Some ts) ts_glob in
+  (sf_n g, sf_d g) = sf /\ (shr_n g, shr_d g) = shr /\ (tw g, th g) = ts.
+Proof. destruct sf, shr, ts. cbn. repeat split. Qed.
+
+Lemma configured_grid_global_options g0 sf shr ts :
+  let g := configured_grid g0 None (Some sf) None (Some shr) None (Some ts) in
+  (sf_n g, sf_d g) = sf /\ (shr_n g, shr_d g) = shr /\ (tw g, th g) = ts.
+Proof. destruct sf, shr, ts. cbn. repeat split. Qed.
+
+(* hence the level choice on a configured grid is the one of closest_level_spec for the configured stretch factor *)
+Lemma configured_level_choice g0 sn sd sf_glob shr_loc shr_glob ts_loc ts_glob rn rd :
+  let g := configured_grid g0 (Some (sn, sd)) sf_glob shr_loc shr_glob ts_loc ts_glob in
+  decreasing_res g -> 0 < levels g -> 0 < rd -> 0 < rn -> 0 < sd <= sn ->
+  sf_n g = sn /\ sf_d g = sd /\ closest_level_spec_of g rn rd (closest_level g rn rd).
+Proof.
+  intros g Hd Hl Hrd Hrn Hsf. split; [reflexivity|]. split; [reflexivity|].
+  apply closest_level_spec; assumption.
+Qed.
+
+Example ex_configured :
+  let g := configured_grid ex_grid (Some (1, 1)) (Some (3, 2)) None None None (Some (128, 128)) in
+  (sf_n g, sf_d g, shr_n g, shr_d g, tw g, th g) = (1, 1, 4, 1, 128, 128) /\
+  closest_level g 46 1 = 2 /\ closest_level (configured_grid ex_grid None (Some (3, 2)) None None None None) 46 1 = 1.
+Proof. repeat split; reflexivity. Qed.
